@@ -483,6 +483,8 @@ class Interp:
         try:
             if fdecl.get('ctor'):
                 self.run_ctor_inits(fdecl, this_cell)
+                if fdecl.get('delegating'):
+                    fr.delegated = True  # the target constructor has completed: the object exists from here on
             result = None
             try:
                 if fdecl.get('body') is not None:
@@ -498,7 +500,13 @@ class Interp:
             self.post_returns = [e for e in self.post_returns if e[0] is not fr]
             self.unwind(fr, None)
             if fdecl.get('ctor') and this_cell is not None:
-                self.hooks.on_ctor_abort(self, this_cell, fdecl)
+                if getattr(fr, 'delegated', False) and self.hooks.tracked_record(fdecl.get('record') or ''):
+                    # [except.ctor]: an exception leaving the body of a delegating constructor after the target
+                    # constructor completed destroys the (fully constructed) object
+                    self.destroy(this_cell)
+                    self.hooks.on_ctor_abort(self, this_cell, fdecl)
+                else:
+                    self.hooks.on_ctor_abort(self, this_cell, fdecl)
             raise
         finally:
             self.frames.pop()
@@ -612,7 +620,12 @@ class Interp:
                 else:
                     raise Unsupported('base initialiser %s at %s' % (e['k'], self.loc(e)))
             elif init.get('delegating'):
-                self.construct_into(this_cell, e, as_base=True)
+                inner = e
+                while inner['k'] in ('ExprWithCleanups', 'CXXBindTemporaryExpr', 'MaterializeTemporaryExpr') and len(inner.get('c', [])) == 1:
+                    inner = inner['c'][0]
+                if inner['k'] not in ('CXXConstructExpr', 'CXXTemporaryObjectExpr'):
+                    raise Unsupported('delegating initialiser %s at %s' % (inner['k'], self.loc(e)))
+                self.construct_into(this_cell, inner, as_base=True)
 
     def zero_of(self, t):
         t = base_type(t)
